@@ -66,6 +66,8 @@ type Translator struct {
 	trusted   map[string]bool // assumed contracts / axioms used
 	epoch     int
 	scanFn    func(fn *ssa.Function, blocks map[*ssa.BasicBlock]bool, depth int)
+	ghosts         map[string]string
+	reflectOf      map[string]*Val
 	autoRecvNonNil bool
 	safeOnly       bool
 }
@@ -78,7 +80,7 @@ type closureInfo struct {
 func newTranslator(prog *ssa.Program, spkg *ssa.Package, c *Contracts) *Translator {
 	tr := &Translator{prog: prog, spkg: spkg, tpkg: spkg.Pkg, fset: prog.Fset, contracts: c, u: newUniverse(),
 		typeCache: map[string]types.Type{}, recDefs: map[string]*recInfo{}, globals: map[string]bool{}, funcVals: map[string]bool{},
-		closures: map[string]*closureInfo{}, nameCount: map[string]int{}, trusted: map[string]bool{}}
+		closures: map[string]*closureInfo{}, nameCount: map[string]int{}, trusted: map[string]bool{}, ghosts: map[string]string{}, reflectOf: map[string]*Val{}}
 	for _, cn := range []string{"MBool", "MInt", "MReal", "MStr", "MPtr", "MSlice", "MIface", "ALLOC", "GCnt", "GLast"} {
 		tr.u.comp(cn)
 	}
@@ -89,6 +91,14 @@ func newTranslator(prog *ssa.Program, spkg *ssa.Package, c *Contracts) *Translat
 	tr.u.decls = append(tr.u.decls, "(assert (forall ((a Int)) (! (>= (select MLen_0 a) 0) :pattern ((select MLen_0 a)))))")
 	for _, s := range c.Smt {
 		tr.u.decls = append(tr.u.decls, s)
+	}
+	for _, g := range c.Ghosts {
+		sort, _ := tr.sortOfText(g.Type)
+		name := "GV_" + g.Name
+		tr.u.compSort[name] = sort
+		tr.u.comps = append(tr.u.comps, name)
+		tr.u.declConst(name+"_0", sort)
+		tr.ghosts[g.Name] = name
 	}
 	tr.cur = &State{M: map[string]string{}}
 	tr.reach = "true"
@@ -202,7 +212,21 @@ func (tr *Translator) havocComp(c string) string {
 	tr.u.comp2(c)
 	n := tr.u.freshConst(c, tr.u.compSort[c])
 	tr.cur.M[c] = n
+	if strings.HasPrefix(c, "MD_") {
+		// the nil map has an empty domain in every state (stores to it are panics, never modelled)
+		s := tr.u.compSort[c]
+		ks := arrayElemSortPrefix(s)
+		tr.fact(fmt.Sprintf("(= (select %s 0) ((as const %s) false))", n, ks))
+	}
+	if c == "MLen" {
+		tr.fact(fmt.Sprintf("(forall ((a Int)) (! (>= (select %s a) 0) :pattern ((select %s a))))", n, n))
+	}
 	return n
+}
+
+// "(Array Int (Array K Bool))" -> "(Array K Bool)"
+func arrayElemSortPrefix(s string) string {
+	return s[len("(Array Int ") : len(s)-1]
 }
 
 func (tr *Translator) alloc() string {
@@ -1045,7 +1069,7 @@ func (fc *fctx) frameBody(cn, now, a string) (string, bool) {
 		}
 		preds = append(preds, it.pred(a))
 	}
-	if cn == "GCnt" || cn == "GLast" {
+	if cn == "GCnt" || cn == "GLast" || strings.HasPrefix(cn, "GV_") {
 		return eq(now, cn+"_0"), true
 	}
 	return implies(and("(< (obase "+a+") ALLOC_0)", not(or(preds...))), eq("(select "+now+" "+a+")", "(select "+cn+"_0 "+a+")")), true
@@ -1082,7 +1106,7 @@ func (fc *fctx) assumeAutoFrame(mods []string) {
 		if !ok {
 			continue
 		}
-		if cn == "GCnt" || cn == "GLast" {
+		if cn == "GCnt" || cn == "GLast" || strings.HasPrefix(cn, "GV_") {
 			tr.assume(g)
 			continue
 		}
